@@ -135,6 +135,9 @@ def run(ctx):
         ctx.decide(ek == dk and ek == {"xp", "dtype"}, "C13.hooks", f"{cn}._encode_for_hdf5/_decode_from_dictionary", loc_of(decm),
                    "namespace and dtype are encoded on save and decoded on load", f"encode overrides {sorted(ek)}, decode restores {sorted(dk)}", disc=cn)
 
+    from .c16 import dict_order
+    dict_order(ctx, repo, "C13.dictorder")
+
     # (6) histories
     H = repo.cls("aspire.history:SMCHistory")
     sv, ld = H.resolve("save"), H.resolve("load")
@@ -218,6 +221,21 @@ def run(ctx):
         wn, rn = names(sv, False), names(ld, True)
         ctx.decide(wn == rn and len(wn) >= 3, "C13.flow", f"{c.ident}", loc_of(ld), f"groups written {sorted(wn)} == groups read",
                    f"save writes groups {sorted(wn)}, load reads {sorted(rn)}", disc="groups")
+        # save() must not consume the instance's own stored configuration
+        cfg_assign = [n for n in walk_no_nested(sv.node) if isinstance(n, ast.Assign) and isinstance(n.targets[0], ast.Name)
+                      and any(isinstance(c_, ast.Call) and isinstance(c_.func, ast.Attribute) and c_.func.attr == "config_dict" for c_ in ast.walk(n.value))]
+        okm = True
+        for a_ in cfg_assign:
+            name = a_.targets[0].id
+            copied = isinstance(a_.value, ast.Call) and ((isinstance(a_.value.func, ast.Attribute) and a_.value.func.attr in ("copy", "deepcopy")) or (isinstance(a_.value.func, ast.Name) and a_.value.func.id in ("dict", "deepcopy")))
+            mutates = any((isinstance(n, ast.Call) and isinstance(n.func, ast.Attribute) and n.func.attr in ("pop", "popitem", "clear", "update", "setdefault") and isinstance(n.func.value, ast.Name) and n.func.value.id == name)
+                          or (isinstance(n, ast.Subscript) and isinstance(n.ctx, (ast.Store, ast.Del)) and isinstance(n.value, ast.Name) and n.value.id == name)
+                          for n in walk_no_nested(sv.node) if getattr(n, "lineno", 0) > a_.lineno)
+            if mutates and not copied:
+                okm = False
+        ctx.decide(okm and bool(cfg_assign), "C13.nomut", f"{c.ident}", loc_of(sv), "save() edits a copy of the configuration, not the instance's own record of its constructor arguments",
+                   "save() pops / overwrites entries of the dict returned by config_dict(), which is the instance's own record of its constructor arguments: after one save the "
+                   "instance has lost its data transform / dtype entry, so a second save (or a later config_dict()) writes a different object", disc="nomut")
         # re-splat of the captured **kwargs
         resplat = False
         popped = None
@@ -293,6 +311,10 @@ MUTANTS = [
     M("config lacks dtype", _A, "\"dtype\": _dtype_to_name(self.dtype),\n", "", "C13.config"),
     M("flow options nest on rebuild", _A, "flow_kwargs = config_dict.pop(\"flow_kwargs\", None) or {}\n        config_dict = {**flow_kwargs, **config_dict}\n", "", "C13.config"),
     M("config gains a key that is not a parameter", _A, "\"eps\": self.eps,\n            \"dtype\"", "\"eps\": self.eps,\n            \"n_dims\": self.dims,\n            \"dtype\"", "C13.config"),
+]
+MUTANTS += [
+    M("torch save consumes the stored constructor arguments", _TF, "config = self.config_dict().copy()\n        data_transform = config.pop(\"data_transform\", None)", "config = self.config_dict()\n        data_transform = config.pop(\"data_transform\", None)", "C13.nomut"),
+    M("from_dict stacks columns in mapping order", _S, "x = np.stack([samples[p] for p in parameters], axis=-1)", "x = np.stack(list(samples.values()), axis=-1)", "C13.dictorder"),
 ]
 NEUTRALS = [
     M("config keys reordered", _A, "\"eps\": self.eps,\n            \"dtype\": _dtype_to_name(self.dtype),", "\"dtype\": _dtype_to_name(self.dtype),\n            \"eps\": self.eps,"),
